@@ -82,6 +82,9 @@ impl OutputEvent {
 //@ - value.event is Text && r is Text ==> xml_unescape(value.event->Text_0.raw()) == Some(r->Text_0@)     @@C03.text.decoded @@C05.text.decoded
 //@ - value.event is Comment && r is Comment ==> str_bytes(r->Comment_0@) == value.event->Comment_0.raw()     @@C03.comment.verbatim @@C05.comment.verbatim
 //@ - value.event is CData && r is CData ==> str_bytes(r->CData_0@) == value.event->CData_0.raw()     @@C03.cdata.verbatim @@C05.cdata.verbatim
+//@ - value.event is Comment && is_utf8(value.event->Comment_0.raw()) ==> r is Comment     @@C02.comment.reaches_the_sink
+//@ - value.event is CData && is_utf8(value.event->CData_0.raw()) ==> r is CData     @@C02.cdata.reaches_the_sink
+//@ - value.event is Text && xml_unescape(value.event->Text_0.raw()) is Some ==> r is Text     @@C02.text.reaches_the_sink
 //@end
 }
 
